@@ -204,6 +204,23 @@ def run_big(chk, spec):
 		judge_cell(chk, L, R, {"how": how, "expect": expect, "lon": ["k"], "ron": ["r"], "stratum": "cell-history", "variant": f"big-right-dup-{where}", "key_mode": spec["key_mode"]})
 
 
+def run_big_left(chk, spec):
+	"""thousands of LEFT rows whose only repeated key sits far apart (rows 0 and 4096, 4095 and 4096, 1 and 8192, first and last): the left side is not unique, wherever a
+	strategy that works in blocks draws its lines"""
+	n, (i, j) = spec["n"], spec["at"]
+	lk = list(range(n))
+	lk[j] = lk[i]
+	if spec["matched"] == "unmatched":
+		lk[i] = lk[j] = 10 ** 6
+	L = Table({"k": lk, "lid": list(range(n))})
+	R = Table({"r": list(range(0, n, 7)), "rid": list(range(0, n, 7))})
+	for how, expect in spec["calls"]:
+		judge_cell(chk, L, R, {"how": how, "expect": expect, "lon": ["k"], "ron": ["r"], "stratum": "cell-history", "variant": f"big-left-dup-at-{i}-{j}", "key_mode": spec["key_mode"]})
+
+
+RUNNERS.update({"big_left": run_big_left})
+
+
 def run_after_rejected(chk, spec):
 	"""a join that is rejected half-way (an unhashable key in an object key column after some ordinary rows; a left duplicate under one_to_one) leaves
 	nothing behind: the next join - other tables, keys that ARE unique but occur in the rejected call too - is judged on its own keys"""
@@ -314,6 +331,44 @@ def run_directed_keys(chk, spec):
 				if T_[nm].schema() is None or T_[nm].schema().kind is not bool:
 					chk.skip("bool-key-not-typed-bool")
 					return
+		elif what == "object-keys-equal-across-classes":
+			# keys that are equal but of different classes (1 / True / 1.0, 2 / 2.0, Decimal(3) / 3) in OBJECT-typed key columns are one key: they repeat
+			from decimal import Decimal
+			from fractions import Fraction
+			lk = {"bool-int": [1, True, "x"], "int-float": [2, 2.0, "x"], "decimal": [Decimal(3), 3, "x"], "fraction": [Fraction(4), 4, "y"], "zero": [0, False, "z"], "unique": [1, 2, "x"]}[spec["pair"]]
+			rk = [1, 2, 3, 4, 0, "x"]
+			if spec["dup_side"] == "left":
+				L = Table([Vector(list(lk), dtype=object, name="k"), Vector(list(range(len(lk))), name="lid")])
+				R = Table([Vector(list(rk), dtype=object, name="r"), Vector(list(range(len(rk))), name="rid")])
+			else:
+				L = Table([Vector(list(rk), dtype=object, name="k"), Vector(list(range(len(rk))), name="lid")])
+				R = Table([Vector(list(lk), dtype=object, name="r"), Vector(list(range(len(lk))), name="rid")])
+			lon, ron = ["k"], ["r"]
+		elif what == "self-join-with-namesake-key":
+			# a table joined with ITSELF, the left key being a different vector that carries the right key column's name (a copy written to, a second column renamed alike)
+			base = Table({"k": [1, 2, 3, 4], "p": ["a", "b", "c", "d"]})
+			if spec["route"] == "copy-written":
+				kv = base["k"].copy()
+				kv[1] = 1            # the left key repeats; the table's own column (the right key) does not
+				left_key = kv
+			else:
+				base = Table({"k": [1, 2, 3, 4], "j": [1, 1, 3, 4], "p": ["a", "b", "c", "d"]})
+				base.rename_column("j", "k")
+				left_key = base.cols()[1]
+			cur_left = list(left_key._underlying)
+			lu = len(set(cur_left)) == len(cur_left)
+			for how, expect in spec["calls"]:
+				fn = {"inner": base.inner_join, "left": base.join, "full": base.full_join}[how]
+				o = call(fn, base, left_key, "k", expect=expect)
+				chk.judged("cell-history", ("cell", how, expect, lu, True, what))
+				need_l = expect in ("one_to_one", "one_to_many")
+				if need_l and not lu and o.ok:
+					chk.fail("the call raises when a required uniqueness fails", f"cardinality/accepted/{how}/{expect}/left-dup/right-unique", f"{spec!r}: self join with left key {cur_left!r} (a vector named like the right key column {list(base.cols()[0]._underlying)!r}) was accepted under {expect}")
+					return
+				if not (need_l and not lu) and not o.ok:
+					chk.fail("the call does not raise when the expectation holds", f"cardinality/spurious-rejection/{how}/{expect}/self-join-namesake/{type(o.exc).__name__}", f"{spec!r}: {o!r}")
+					return
+			return
 		else:
 			a = Table({"k": [1, 2, 3, 4], "p": ["a", "b", "c", "d"]})
 			b = Table({"rk": [1, 9], "q": ["x", "y"]})
@@ -440,6 +495,9 @@ def run(chk):
 					for handle_write in (False, True):
 						calls = [(HOWS[(i + len(source)) % len(HOWS)], e) for i, e in enumerate(EXPECTS)]
 						chk.case("library_results_as_operands", {"source": source, "side": side, "other": other, "key_mode": key_mode, "calls": calls, "handle_write": handle_write}, "cell-library-results")
+	for n, at in ((4100, (0, 4096)), (4100, (4095, 4096)), (8200, (1, 8192)), (5000, (0, 4999)), (1030, (1023, 1024)), (300, (127, 256)), (4100, (100, 200))):
+		for matched in ("matched", "unmatched"):
+			chk.case("big_left", {"n": n, "at": at, "matched": matched, "key_mode": "name" if n % 2 else "vector", "calls": [("left", "one_to_one"), ("left", "one_to_many"), ("full", "one_to_one"), ("inner", "one_to_many"), ("left", "many_to_one")]}, "cell-big-left")
 	for key_mode in ("name", "vector"):
 		allcalls = [(h, e) for h in HOWS for e in EXPECTS]
 		for sep in ("\x1f", "\x00", "|", ",", "\t", " ", "\x1e", "/", "::"):
@@ -449,6 +507,11 @@ def run(chk):
 				chk.case("directed_keys", {"what": "bool-with-none", "nkeys": nkeys, "n": n, "calls": allcalls, "key_mode": key_mode}, "cell-directed-keys")
 		for side in ("left", "right"):
 			chk.case("directed_keys", {"what": "padded-key-of-one_to_one-left-join", "side": side, "calls": allcalls, "key_mode": key_mode}, "cell-directed-keys")
+		for pair in ("bool-int", "int-float", "decimal", "fraction", "zero", "unique"):
+			for dup_side in ("left", "right"):
+				chk.case("directed_keys", {"what": "object-keys-equal-across-classes", "pair": pair, "dup_side": dup_side, "calls": allcalls, "key_mode": key_mode}, "cell-directed-keys")
+		for route in ("copy-written", "second-column-renamed-alike"):
+			chk.case("directed_keys", {"what": "self-join-with-namesake-key", "route": route, "calls": allcalls, "key_mode": key_mode}, "cell-directed-keys")
 	for how in HOWS:
 		_c09.repeated_key_cases(chk, how, 40 if chk.quick() else 300, expects=EXPECTS)
 	# key columns that differ only where hash() cannot tell (equal fingerprints), every fingerprint cached beforehand
